@@ -91,7 +91,7 @@ def _refusing(f):
 
 def _onerr_sites(f):
     out = []
-    for p, n in call_sites(f, lambda n: (n.get('cs') or '').split('::')[-1] in ('OnError',) or (n['k'] == 'CXXOperatorCallExpr' and n.get('op') == '()' and 'onError' in n.get('txt', ''))):
+    for p, n in call_sites(f, lambda n: (n.get('cs') or '').split('::')[-1] in ('OnError',) or (n.get('cs') or '') == R + 'ErrorLogger::LogError' or (n['k'] == 'CXXOperatorCallExpr' and n.get('op') == '()' and 'onError' in n.get('txt', ''))):
         out.append(p)
     return out
 
